@@ -315,6 +315,47 @@ fn main() {
         }
     }
 
+    // boundary sweep: every combination of first/second/penultimate/last row and column with all
+    // flag pairs — a range that merely TOUCHES the last row or column is not a full-column/row range
+    {
+        let locale = get_locale("en").unwrap();
+        let language = get_language("en").unwrap();
+        let rs = [1, 2, 1_048_575, 1_048_576];
+        let cols = [1, 2, 16383, 16384];
+        for &r1 in &rs { for &r2 in &rs { for &c1 in &cols { for &c2 in &cols {
+            for f1 in flags { for f2 in flags {
+                let node = Node::RangeKind { sheet_name: None, sheet_index: 0,
+                    absolute_row1: f1.0, absolute_column1: f1.1, row1: if f1.0 { r1 } else { r1 - CTX_ROW }, column1: if f1.1 { c1 } else { c1 - CTX_COL },
+                    absolute_row2: f2.0, absolute_column2: f2.1, row2: if f2.0 { r2 } else { r2 - CTX_ROW }, column2: if f2.1 { c2 } else { c2 - CTX_COL } };
+                let text = to_english_string(&node, &ctx());
+                or.checked += 1;
+                *dist.entry("range_boundary_roundtrips").or_insert(0) += 1;
+                let mut lx = Lexer::new(&text, LexerMode::A1, locale, language);
+                let t = lx.next_token();
+                let eof = lx.next_token() == TokenType::EOF;
+                // what the printed text denotes: the same four corners (a full-column / full-row
+                // spelling denotes rows 1..LAST / columns 1..LAST with absolute markers)
+                let has_letters = text.contains(|ch: char| ch.is_ascii_alphabetic());
+                let has_digits = text.contains(|ch: char| ch.is_ascii_digit());
+                let ok = match &t {
+                    TokenType::Range { sheet: None, left, right } => eof
+                        && (left.row, left.column, right.row, right.column) == (r1, c1, r2, c2)
+                        && (!has_letters || (left.absolute_column, right.absolute_column) == (f1.1, f2.1))
+                        && (!has_digits || (left.absolute_row, right.absolute_row) == (f1.0, f2.0)),
+                    _ => false,
+                };
+                if !ok && !has_letters && !has_digits {
+                    // both the row part and the column part were dropped
+                    or.fail("range_whole_sheet_prints_bare_colon", json!({"text": text, "flags": format!("{:?}{:?}", f1, f2)}), format!("the range $A$1:$XFD$1048576 is printed as {text:?}"));
+                    continue;
+                }
+                if !ok {
+                    or.fail("range_boundary_roundtrip", json!({"text": text, "r1": r1, "c1": c1, "r2": r2, "c2": c2, "flags": format!("{:?}{:?}", f1, f2)}), format!("range ({r1},{c1})-({r2},{c2}) printed as {text}, read back as {:?}", t));
+                }
+            } }
+        } } } }
+    }
+
     // ---- sheet names --------------------------------------------------------------------
     let mut names: Vec<String> = vec![];
     let nlen = if thorough { 3 } else { 2 };
